@@ -57,6 +57,29 @@ Proof.
 Qed.
 Print Assumptions C08_names_resolve_modulo_known.
 
+(* Full mode.  The derived values (file paths relative to the working directory / the package, parsed sections) are a
+   parameter F of the encoder; [finfo_ok]: they are JSON that decodes (parsed sections are dicts with a `kind` that is not
+   an object kind and no `name`).  For every such F a full document decodes to the same tree as the minimal one ... *)
+Theorem C08_full_decode :
+  forall F, (forall path, finfo_ok (F path)) ->
+  forall t prefix j, rep t = true -> enc_full F prefix t = Ok j -> decode j = Ok (PTree (reload t)).
+Proof. exact full_decode. Qed.
+Print Assumptions C08_full_decode.
+
+(* ... and, the derived values being re-derived identically (same F), the reloaded tree gives the identical full document. *)
+Theorem C08_roundtrip_full :
+  forall F, (forall path, finfo_ok (F path)) ->
+  forall t prefix j, wf t = true -> enc_full F prefix t = Ok j ->
+  exists t', decode j = Ok (PTree t') /\ enc_full F prefix t' = Ok j.
+Proof. exact roundtrip_full. Qed.
+Print Assumptions C08_roundtrip_full.
+
+Theorem C08_example_full :
+  let F := w_F [mkSection "text" None (JStr "Doc.")] (Some (JStr "/p/pkg/__init__.py")) in
+  (forall path, finfo_ok (F path)) /\ exists j, enc_full F "" ex_tree = Ok j /\ decode j = Ok (PTree ex_tree).
+Proof. exact example_full. Qed.
+Print Assumptions C08_example_full.
+
 (* Non-vacuity: a tree with every node kind satisfies every hypothesis and round-trips to itself. *)
 Theorem C08_example_all_kinds :
   wf ex_tree = true /\ gap_expr ex_tree = false /\ decode (enc_min ex_tree) = Ok (PTree ex_tree).
